@@ -11,6 +11,8 @@ import (
 	"reflect"
 
 	"github.com/sarchlab/akita/v5/hooking"
+	"github.com/sarchlab/akita/v5/mem/memcontrolprotocol"
+	"github.com/sarchlab/akita/v5/messaging"
 	"github.com/sarchlab/akita/v5/modeling"
 	"github.com/sarchlab/akita/v5/naming"
 	"github.com/sarchlab/akita/v5/simulation"
@@ -122,20 +124,29 @@ type Job struct {
 	// Mid-run control: at CtlAt, these steps are handed to the control agent.
 	CtlAt    *uint64   `json:"ctl_at"`
 	CtlSteps []CtlStep `json:"ctl_steps"`
+	// TraceAll attaches one recording tracer to every component and connection
+	// and returns the trace stream. ResetAt > 0 additionally resets every bottom
+	// and level (bottom-up, one acknowledged Reset at a time) at ResetAt/16 of the
+	// uninterrupted run's length.
+	TraceAll bool `json:"trace_all"`
+	ResetAt  int  `json:"reset_at"`
 }
 
 // Result is what a child reports.
 type Result struct {
-	Error         string         `json:"error,omitempty"`
-	Events        []EvRec        `json:"events"`
-	EndTime       uint64         `json:"end_time"`
-	NextID        uint64         `json:"next_id"`
-	DriverState   []DriverState  `json:"driver_state"`
-	CtlState      CtlState       `json:"ctl_state"`
-	Stats         map[string]int `json:"stats"`
-	InFlightAtCut int            `json:"in_flight_at_cut"`
-	BufferedAtCut int            `json:"buffered_at_cut"`
-	FinalSHA      string         `json:"final_sha"`
+	Error         string              `json:"error,omitempty"`
+	Events        []EvRec             `json:"events"`
+	EndTime       uint64              `json:"end_time"`
+	NextID        uint64              `json:"next_id"`
+	DriverState   []DriverState       `json:"driver_state"`
+	CtlState      CtlState            `json:"ctl_state"`
+	Stats         map[string]int      `json:"stats"`
+	Trace         []TraceEv           `json:"trace,omitempty"`
+	Resets        map[string][]uint64 `json:"resets,omitempty"` // component -> instants at which it acknowledged a Reset
+	OpenAtReset   int                 `json:"open_at_reset"`
+	InFlightAtCut int                 `json:"in_flight_at_cut"`
+	BufferedAtCut int                 `json:"buffered_at_cut"`
+	FinalSHA      string              `json:"final_sha"`
 }
 
 // RunJob executes a job in this process.
@@ -165,6 +176,10 @@ func RunJob(j Job) (res Result) {
 	}
 	rec := &TraceRecorder{}
 	engine.AcceptHook(rec)
+	if j.TraceAll {
+		runTraced(j, a, engine, &res)
+		return
+	}
 	if j.CtlAt != nil && j.LoadFrom == "" {
 		_ = engine.RunUntil(timing.VTimeInPicoSec(*j.CtlAt))
 		a.Ctl.State.Steps = append(a.Ctl.State.Steps, j.CtlSteps...)
@@ -229,4 +244,72 @@ func ChildMain() {
 		os.Exit(3)
 	}
 	os.Exit(0)
+}
+
+type resetWatch struct {
+	name   string
+	engine *timing.SerialEngine
+	out    map[string][]uint64
+}
+
+func (w *resetWatch) Func(ctx hooking.HookCtx) {
+	if ctx.Pos != messaging.HookPosPortMsgSend {
+		return
+	}
+	if rsp, ok := ctx.Item.(memcontrolprotocol.Rsp); ok && rsp.Command == memcontrolprotocol.CmdReset {
+		w.out[w.name] = append(w.out[w.name], uint64(w.engine.CurrentTime()))
+	}
+}
+
+func runTraced(j Job, a *Assembly, engine *timing.SerialEngine, res *Result) {
+	var endT timing.VTimeInPicoSec
+	if j.ResetAt > 0 {
+		// length of the uninterrupted run, measured without any hook so the
+		// tracing side tables of this process stay untouched
+		ids := timing.GetIDGeneratorNextID()
+		e0 := timing.NewSerialEngine()
+		a0 := Build(NewReg(e0), j.Spec)
+		a0.Kick()
+		_ = e0.Run()
+		endT = e0.CurrentTime()
+		timing.SetIDGeneratorNextID(ids)
+	}
+	tr := &RecTracer{}
+	a.AttachTracer(tr)
+	res.Resets = map[string][]uint64{}
+	watch := func(comp messaging.Component) {
+		name := comp.(interface{ Name() string }).Name()
+		comp.GetPortByName("Control").AcceptHook(&resetWatch{name: name, engine: engine, out: res.Resets})
+	}
+	for _, lc := range a.LevelComps {
+		watch(lc)
+	}
+	for _, b := range a.Bottoms {
+		watch(b)
+	}
+	if j.ResetAt > 0 {
+		_ = engine.RunUntil(endT * timing.VTimeInPicoSec(j.ResetAt) / 16)
+		open := map[uint64]bool{}
+		for _, e := range tr.Events {
+			if e.Op == "start" {
+				open[e.ID] = true
+			} else if e.Op == "end" {
+				delete(open, e.ID)
+			}
+		}
+		res.OpenAtReset = len(open)
+		var steps []CtlStep
+		for _, b := range a.Bottoms {
+			steps = append(steps, CtlStep{Target: string(b.GetPortByName("Control").AsRemote()), Cmd: int(memcontrolprotocol.CmdReset)})
+		}
+		for i := len(a.LevelComps) - 1; i >= 0; i-- {
+			steps = append(steps, CtlStep{Target: string(a.LevelComps[i].GetPortByName("Control").AsRemote()), Cmd: int(memcontrolprotocol.CmdReset)})
+		}
+		a.Ctl.State.Steps = append(a.Ctl.State.Steps, steps...)
+		a.Ctl.TickLater()
+	}
+	_ = engine.Run()
+	res.Trace = tr.Events
+	res.EndTime = uint64(engine.CurrentTime())
+	res.CtlState = a.Ctl.State
 }
